@@ -253,15 +253,17 @@ def changeStates (snaps : List Snap) (c : Chg) : List (Ent × State) :=
     | some a => some (a, stateOf m)
     | none => none
 
-/-- state of every rule of the HEAD snapshot: what some change says about it (the last change in Go order wins in
-the final merge loop), `noop` when no change mentions its file -/
+/-- state of every rule of the HEAD snapshot: the states the last change (in Go order) for its file gives to the file's
+rules, position by position (the final merge loop pairs branch entries with glob entries by line range); `noop` when
+no change mentions the file -/
 def headStates (snaps : List Snap) (rs : List Rec) : List (Ent × State) :=
   let head := snapAt snaps (snaps.length - 1)
-  let found := (changes rs).flatMap (changeStates snaps)
-  head.flatMap fun (p, es) => es.map fun e =>
-    let e' := { e with path := p }
-    match found.reverse.find? (fun x => x.1 == e') with
-    | some x => (e', x.2)
-    | none => (e', State.noop)
+  head.flatMap fun (p, es) =>
+    let es' := es.map fun e => { e with path := p }
+    match (changes rs).reverse.find? (fun c => c.after == p && c.st != .D) with
+    | some c =>
+      let sts := changeStates snaps c
+      if sts.length == es'.length then es'.zip (sts.map (·.2)) else es'.map fun e => (e, State.noop)
+    | none => es'.map fun e => (e, State.noop)
 
 end Pint.Git
